@@ -205,6 +205,7 @@ def same_values(got, expected):
 
 from pybufrkit.decoder import Decoder, generate_bufr_message
 from pybufrkit.dataprocessor import BufrTableDefinitionProcessor
+from pybufrkit.errors import PyBufrKitError
 from pybufrkit.tables import TableGroupCacheManager
 
 
@@ -298,14 +299,16 @@ assert raises(ValueError, extract, make_definition_message([('048001', 'NO SCALE
 assert raises(ValueError, extract, make_definition_message(
     [('048001', 'OK', 'M', 0, 0, 8), ('048002', 'BAD', 'M', ('+', 'x'), ('+', 'y'), 8), ('048003', 'OK', 'M', 0, 0, 8)], []))
 # two subsets in a definition message
+# (rebased: since "fix: a message of data category 11 that is not laid out as a table definition message
+# no longer aborts the scan with AssertionError" these refusals are PyBufrKitError, not AssertionError)
 two_subsets = make_definition_message([('048001', 'E', 'M', 0, 0, 8)], [], n_subsets=2)
-assert raises(AssertionError, extract, two_subsets)
+assert raises(PyBufrKitError, extract, two_subsets)
 # a message that is not a table definition at all (three top level nodes are demanded)
 b_table, d_table = tables_of([], [])
 plain, _ = make_data_message(['001001', '012001'], b_table, d_table, random.Random(5))
-assert raises(AssertionError, extract, plain)
+assert raises(PyBufrKitError, extract, plain)
 plain3, _ = make_data_message(['001001', '012001', '001001'], b_table, d_table, random.Random(5))
-assert raises(AssertionError, extract, plain3)
+assert raises(PyBufrKitError, extract, plain3)
 
 # --- 4. the real NCEP file ------------------------------------------------------------------------
 with open(os.path.join('tests', 'data', 'prepbufr.bufr'), 'rb') as ins:
